@@ -185,6 +185,12 @@ MUTANTS = [
     ('C20', 'linear_layer.py', '      result = tf.reduce_sum(inputs * tf.transpose(self.kernel), axis=-1)',
      '      result = tf.reduce_sum(inputs * tf.transpose(self.kernel), axis=0)', 'X2',
      'multi-unit contraction over the batch'),
+    ('C20', 'linear_layer.py', '    if ((input_min and input_min.count(None) < len(input_min)) or',
+     '    if ((input_min and input_min.count(None) < len(input_min)) and', 'W4',
+     'clip constants only stored when BOTH sides have a bound'),
+    ('C20', 'linear_layer.py', '        (input_max and input_max.count(None) < len(input_max))):',
+     '        (input_max and input_max.count(None) <= len(input_max))):', 'W4',
+     'clip constants stored for an all-None upper bound list'),
     # ---- neutral variants (must stay silent)
     ('C08', 'lattice_lib.py', '    average = (layers[i] + layers[i + 1]) / 2.0', '    average = 0.5 * (layers[i] + layers[i + 1])',
      None, 'N: average written as 0.5 * sum'),
